@@ -152,57 +152,75 @@ pub fn run<C: Ciphersuite, L: Lab<C>>(lab: &mut L, p: &Params) {
         return;
     }
     let (s2, _) = p2.unwrap();
-    // all fillings of the round-two slots
-    let per_slot: Vec<Vec<Option<(usize, Identifier<C>)>>> = senders
-        .iter()
-        .map(|s| {
-            let mut v = vec![None];
-            for r in 0..2 {
-                for a in ids.iter().filter(|a| *a != s) {
-                    v.push(Some((r, *a)));
-                }
-            }
-            v
-        })
-        .collect();
-    let total: usize = per_slot.iter().map(|v| v.len()).product();
-    let mut comms: Vec<&fc::keys::VerifiableSecretSharingCommitment<C>> = r1.values().map(|p| p.commitment()).collect();
-    comms.push(runs[own].r1[&me].commitment());
-    let mut accepted = 0usize;
-    for h in 0..total {
-        let mut k = h;
-        let mut r2: BTreeMap<Identifier<C>, round2::Package<C>> = BTreeMap::new();
-        let mut matching = true;
+    // The round-one contributions are handed to `part3` again: the network (or the caller's
+    // storage) may present, in each slot, the sender's contribution of either run at that point —
+    // not necessarily the one `part2` saw. Every such assignment is explored; "matching" refers to
+    // the set `part3` is given.
+    let n_alt = 1usize << senders.len();
+    let mut accepted_total = 0usize;
+    for alt in 0..n_alt {
+        let mut r1_3: BTreeMap<Identifier<C>, round1::Package<C>> = BTreeMap::new();
+        let mut slot_run_3: BTreeMap<Identifier<C>, Option<usize>> = BTreeMap::new();
         for (j, s) in senders.iter().enumerate() {
-            let choice = per_slot[j][k % per_slot[j].len()];
-            k /= per_slot[j].len();
-            match choice {
-                None => matching = false,
-                Some((r, a)) => {
-                    r2.insert(*s, runs[r].r2[s][&a].clone());
-                    if Some(r) != slot_run[s] || a != me {
-                        matching = false;
+            let r = (alt >> j) & 1;
+            r1_3.insert(*s, runs[r].r1[s].clone());
+            slot_run_3.insert(*s, Some(r));
+        }
+        // all fillings of the round-two slots
+        let per_slot: Vec<Vec<Option<(usize, Identifier<C>)>>> = senders
+            .iter()
+            .map(|s| {
+                let mut v = vec![None];
+                for r in 0..2 {
+                    for a in ids.iter().filter(|a| *a != s) {
+                        v.push(Some((r, *a)));
+                    }
+                }
+                v
+            })
+            .collect();
+        let total: usize = per_slot.iter().map(|v| v.len()).product();
+        let mut comms: Vec<&fc::keys::VerifiableSecretSharingCommitment<C>> = r1_3.values().map(|p| p.commitment()).collect();
+        comms.push(runs[own].r1[&me].commitment());
+        let mut accepted = 0usize;
+        for h in 0..total {
+            let mut k = h;
+            let mut r2: BTreeMap<Identifier<C>, round2::Package<C>> = BTreeMap::new();
+            let mut matching = true;
+            for (j, s) in senders.iter().enumerate() {
+                let choice = per_slot[j][k % per_slot[j].len()];
+                k /= per_slot[j].len();
+                match choice {
+                    None => matching = false,
+                    Some((r, a)) => {
+                        r2.insert(*s, runs[r].r2[s][&a].clone());
+                        if Some(r) != slot_run_3[s] || a != me {
+                            matching = false;
+                        }
                     }
                 }
             }
-        }
-        let m = lab.mark();
-        let p3 = dkg::part3(&s2, &r1, &r2);
-        if matching {
-            if lab.check(p3.is_ok(), "part3 completes when every round-two share is addressed to this recipient and belongs to the round-one contribution in its slot") {
-                let (kp, pp) = p3.unwrap();
-                consistent::<C, L>(lab, me, p.t, &kp, &pp, &comms);
-                accepted += 1;
+            let m = lab.mark();
+            let p3 = dkg::part3(&s2, &r1_3, &r2);
+            if matching {
+                if lab.check(p3.is_ok(), "part3 completes when every round-two share is addressed to this recipient and belongs to the round-one contribution in its slot") {
+                    let (kp, pp) = p3.unwrap();
+                    consistent::<C, L>(lab, me, p.t, &kp, &pp, &comms);
+                    accepted += 1;
+                }
+            } else {
+                // a share addressed to somebody else, or belonging to the other run's contribution, or missing
+                let ok = p3.is_ok();
+                lab.expect_reject(m, ok, "part3 accepts a round-two share only if it was addressed to this recipient and belongs to the round-one contribution filed for the same sender");
+                if let Ok((kp, pp)) = p3 {
+                    consistent::<C, L>(lab, me, p.t, &kp, &pp, &comms);
+                }
             }
-        } else {
-            // a share addressed to somebody else, or belonging to the other run's contribution, or missing
-            let ok = p3.is_ok();
-            lab.expect_reject(m, ok, "part3 accepts a round-two share only if it was addressed to this recipient and belongs to the round-one contribution filed for the same sender");
-            if let Ok((kp, pp)) = p3 {
-                consistent::<C, L>(lab, me, p.t, &kp, &pp, &comms);
-            }
         }
+        lab.check(accepted == 1, "exactly one filling of the round-two slots is the matching one");
+        accepted_total += accepted;
     }
+    let accepted = if accepted_total == n_alt { 1 } else { 0 };
     lab.check(accepted == 1, "exactly one filling of the round-two slots is the matching one");
     lab.leave();
 }
